@@ -9,8 +9,9 @@
 (*             listing omits returned: served | refused | none                              *)
 (*   end       end of the history                                                           *)
 (* Property level (VIOLATION), clause Robust of Dir:                                        *)
-(*   Robust.Answered       the response is a success listing (unless the server refuses the *)
-(*                         DIRECTORY's own selector: no child is involved, drift only)      *)
+(*   Robust.Answered       the response is a success listing (unless the same directory     *)
+(*                         WITHOUT any child is refused as well - control request recorded  *)
+(*                         in `dirrefused`: no child is involved, drift only)               *)
 (*   Robust.HealthyListed  every healthy visible child is listed - healthy judged on the    *)
 (*                         implementation: an omitted child that the model's pinned filter  *)
 (*                         calls healthy is a violation iff the server SERVES it by exact   *)
@@ -44,8 +45,10 @@ Touches(e) == UNCHANGED <<dvars, pred, pending>> /\ seen' = e.names /\ verdict' 
 Response(e) ==
     LET obs     == [kind |-> e.status, listing |-> e.listing]
         mdl     == Pipeline(d, raw)
-        \* the server refuses the directory ITSELF by its own selector (e.g. its name is rejected by the code's filter):
-        \* no child took the listing down - outside the property, reported as drift
+        \* the directory is refused INDEPENDENTLY of its children: the control request for the same directory with
+        \* every child removed (same protocol form) was not answered with a success listing either (e.dirrefused is
+        \* that observation, e.g. the directory's own name is rejected by the code's filter).  No child took the
+        \* listing down - outside the property, reported as drift
         refused == obs.kind # "ok" /\ e.dirrefused
         v       == IF refused THEN "ok"
                    ELSE IF obs.kind # "ok" THEN "Robust.Answered"
